@@ -225,13 +225,29 @@ pub struct WaitThread { pub filler: u8 }
 #[verifier::external_body] pub fn join_reader(r: ReaderThread) -> Result<(), JoinError> { unimplemented!() }
 #[verifier::external_body] pub fn kill_blocking(k: Shared<Killer>) { unimplemented!() }
 #[verifier::external_body] pub fn select_arm() -> u8 { unimplemented!() }
-// control operations (stdin, resize, signal) write control frames while the task runs: not under contract, assumed to write only such
-// frames (which are in their place whenever the stream is open and not ended)
-#[verifier::external_body]
-pub fn handle_control(task_id: &String, emitter: &TaskEmitter, Tracked(life): Tracked<&mut Life>, stdin: &Shared<PtyWriter>, killer: &Shared<Killer>, master: &mut MasterPty, message: TaskControl)
+// control operations (stdin, resize, signal): the blocking writes to the pty and the kill are stand-ins (their closures are replaced
+// as a whole; they write no frame); which control frame is written, and that it is written into an open stream, is under contract
+//@@ item crates/ripd/src/tasks/pty.rs enum SignalAction
+#[verifier::external_body] pub fn normalize_signal(signal: &String) -> Option<SignalAction> { unimplemented!() }
+#[verifier::external_body] pub fn write_blocking(stdin: Shared<PtyWriter>, bytes: Vec<u8>) -> Result<Result<(), IoError>, JoinError> { unimplemented!() }
+#[verifier::external_body] pub fn write_byte_blocking(stdin: Shared<PtyWriter>, b: u8) -> Result<Result<(), IoError>, JoinError> { unimplemented!() }
+#[verifier::external_body] pub fn kill_blocking_result(k: Shared<Killer>) -> Result<bool, JoinError> { unimplemented!() }
+impl MasterPty { #[verifier::external_body] pub fn resize(&mut self, s: PtySize) -> Result<(), PtyError> { unimplemented!() } }
+
+//@@ fn crates/ripd/src/tasks/pty.rs handle_control rules=R3
+//@@ rewrite &TaskEmitter ==>> &TaskEmitter, Tracked(life): Tracked<&mut Life>
+//@@ rewrite &Arc<StdMutex<Box<dyn Write + Send>>> ==>> &Shared<PtyWriter>
+//@@ rewrite &Arc<StdMutex<Box<dyn portable_pty::ChildKiller + Send + Sync>>> ==>> &Shared<Killer>
+//@@ rewrite &mut Box<dyn portable_pty::MasterPty + Send> ==>> &mut MasterPty
+//@@ rewrite {id} .emit( ==>> emit_t(&{id}, Tracked(&mut *life),
+//@@ rewrite tokio::task::spawn_blocking(move || { let mut guard = stdin.lock().expect("stdin writer lock"); guard.write_all(&bytes).and_then(|_| guard.flush()) }) .await ==>> write_blocking(stdin, bytes)
+//@@ rewrite tokio::task::spawn_blocking(move || { let mut guard = stdin.lock().expect("stdin writer lock"); guard.write_all(&[0x03]).and_then(|_| guard.flush()) }) .await ==>> write_byte_blocking(stdin, 0x03)
+//@@ rewrite tokio::task::spawn_blocking(move || { let mut guard = stdin.lock().expect("stdin writer lock"); guard.write_all(&[0x1c]).and_then(|_| guard.flush()) }) .await ==>> write_byte_blocking(stdin, 0x1c)
+//@@ rewrite tokio::task::spawn_blocking(move || { let mut guard = killer.lock().expect("killer lock"); guard.kill().is_ok() }) .await ==>> kill_blocking_result(killer)
+//@@ sig
     requires old(life).spawned && old(life).terminal == 0,
-    ensures *final(life) == (Life { frames: final(life).frames, ..*old(life) }), final(life).frames >= old(life).frames,
-{ unimplemented!() }
+    ensures *final(life) == (Life { frames: final(life).frames, ..*old(life) }), final(life).frames >= old(life).frames,      // [handle_control.writes_only_control_frames_into_an_open_stream]
+//@@ end
 pub mod logs {
     use vstd::prelude::*;
     verus! { #[verifier::external_body] pub fn truncate_utf8(bytes: &[u8], max_bytes: usize) -> (String, bool, usize) { unimplemented!() } }
